@@ -671,8 +671,9 @@ def gen_histories(ctx, thorough):
     depth = 4 if thorough else 3
     inits = [(), (("D", "color", "red", 1), ("C", 1), ("D", "COLOR", "blue", 0))]
     ops_for = core if not thorough else core[:16] + core[-4:]
-    for init in inits[:1 if thorough else 2]:
-        for seq_ in itertools.product(ops_for, repeat=depth):
+    for k, init in enumerate(inits[:1 if thorough else 2]):
+        alphabet = ops_for if k == 0 else core[:16] + core[-4:]     # second start block: reduced alphabet
+        for seq_ in itertools.product(alphabet, repeat=depth):
             hs.append({"ro": 0, "probes": PROBES[:6], "init": list(init), "ops": list(seq_)})
     n_exh = len(hs)
     rng = ctx.rng
@@ -886,8 +887,8 @@ def run(ctx):
         "distinct_nontrivial": len(nontrivial),
         "rule": "histories = corpus + one per generated attribute (%d) + all sequences of %d operations over the "
                 "%d-op core alphabet (%d, exhaustive part) + random sequences of <= 40 operations over the full "
-                "alphabet (14 name spellings incl. escapes, escaped backslash, whitespace, unparsable; valid / invalid "
-                "/ empty / None values; 6 priority spellings; normalize and replace on/off; Property arguments; item, "
+                "alphabet (17 name spellings incl. escapes, escaped backslash, whitespace, unparsable; valid / invalid "
+                "/ empty / None values and 14 value spellings ending in or containing ';' '!' '}' ')' '(' '{'; 6 priority spellings; normalize and replace on/off; Property arguments; item, "
                 "attribute and cssText assignment (as item lists and as composed TEXTS with junk declarations, nested brackets, "
                 "comments and at-rules that the model tokenizes and splits with the declaration-block skeleton), deletion; "
                 "raiseExceptions on/off; read-only blocks) from parsed "
@@ -934,6 +935,12 @@ TRUSTED = [
     "declaration parse itself (Property.cssText: name / value / priority split, name and priority tokens) is in the model; the reference oracle uses well-formed values only",
 ]
 ASSUME = [
+    "the model's `step` is a function of (operation, block): the history theorems assume that the outcome of an "
+    "operation depends on the block and its arguments only, i.e. no state outside the block survives an operation "
+    "(module-level tokenizer of prodparser, log flags, ...). Validated after EVERY step of every history by "
+    "_independent_set (a fresh, unrelated block must store and read back plain values) and by the step-by-step "
+    "correspondence itself, with value arguments that end in / contain the tokens the value grammar stops at "
+    "(';', '!', '}', ')', '(', '{') in both logging modes",
     "Print Assumptions for every theorem of props/C11.v: see coverage.print_assumptions",
     "theorems quantify over every normalisation function norm; statements that relate a spelling to the name "
     "the Property constructor gives it: setProperty needs none (it looks up under the stored name); reading back "
